@@ -577,8 +577,41 @@ fn print_alike(v: &Lit) -> Lit {
     }
 }
 
+/// string values that differ only in the white space INSIDE them (three different values)
+const BLANK_FAMILY: [&str; 4] = ["disk full", "disk  full", "disk\tfull", "diskfull"];
+
 fn gen_history(rng: &mut Rng, plan: &Plan) -> (FactsG, Vec<Step>, bool) {
+    let (mut facts, steps, rete) = gen_history_inner(rng, plan);
+    // one history in 6 runs on a LARGE fact base: 30..=45 more top-level facts that no rule or
+    // query mentions, whose names sort before every other fact's
+    if rng.chance(1, 6) {
+        let k = 30 + rng.below(16);
+        for i in 0..k {
+            facts.values.push((format!("0f{:02}", i), Lit::I(100 + i as i64)));
+        }
+    }
+    (facts, steps, rete)
+}
+
+fn gen_history_inner(rng: &mut Rng, plan: &Plan) -> (FactsG, Vec<Step>, bool) {
     let facts = gen_facts(rng, plan);
+    if rng.chance(1, 12) {
+        // the same field asked about with literals that differ only in inner white space, the
+        // fact holding one of them (set through the API, so no parser touches it)
+        let f = rng.pick(&["S", "T.s", "U.s", "NOTES"]).to_string();
+        let mut fam: Vec<&str> = BLANK_FAMILY.to_vec();
+        rng.shuffle(&mut fam);
+        let mut steps = vec![Step::Set(f.clone(), Lit::S(fam[0].to_string()))];
+        let mut order: Vec<&str> = fam[..3].to_vec();
+        rng.shuffle(&mut order);
+        for v in order {
+            steps.push(Step::Query(Atom { field: f.clone(), op: Op::Eq, lit: Lit::S(v.to_string()) }, rng.chance(1, 6)));
+        }
+        if rng.bool() {
+            steps.insert(2, Step::Set(f.clone(), Lit::S(fam[1].to_string())));
+        }
+        return (facts, steps, false);
+    }
     let rete = rng.chance(1, 4);
     let mut pool: Vec<Atom> = Vec::new();
     let npool = 1 + rng.below(3);
